@@ -1052,6 +1052,16 @@ fn gen_tiny_text(r: &mut Rng, n: usize, diff: bool, out: &mut Out) -> Vec<u8> {
 	let mut hdr: Vec<Vec<u8>> = vec![b"tiny".to_vec(), b"2".to_vec(), b"0".to_vec()];
 	if !diff { for i in 0..n { hdr.push(format!("ns{i}").into_bytes()); } }
 	lines.push((0, hdr));
+	// the header's own section (32a66ed): property lines one level deeper, directly after the header
+	if !diff {
+		match r.below(8) {
+			0 => lines.push((1, vec![b"c".to_vec(), b"top \\n level".to_vec()])),
+			1 => { lines.push((1, vec![b"escaped-names".to_vec()])); lines.push((1, vec![b"c".to_vec(), ident(r)])); }
+			2 => { lines.push((1, vec![b"c".to_vec(), ident(r)])); lines.push((1, vec![b"c".to_vec(), ident(r)])); }
+			3 => lines.push((2, vec![b"c".to_vec(), ident(r)])),
+			_ => {}
+		}
+	}
 	let names = |r: &mut Rng, k: usize| -> Vec<Vec<u8>> { (0..k).map(|_| if r.chance(1, 8) { Vec::new() } else { ident(r) }).collect() };
 	let cols = if diff { 2 } else { n - 1 };
 	let comment = |r: &mut Rng, ind: usize, lines: &mut Vec<(usize, Vec<Vec<u8>>)>| {
